@@ -158,6 +158,10 @@ def scenarios(rnd, quick):
         dict(writers=[[(0, 1)], [(0, 2)]], readers=[[0, 0]]),                                # storing twice under one id
         dict(writers=[[(3, 1)], [(1, 2)]], readers=[[3, 1, 0]], presize=5),                  # pre-sized index, gaps stay
         dict(writers=[[(5, 1), (0, 2)]], readers=[[5, 4]]),                                  # ids above a gap
+        # pre-sized index with fewer ids stored than it has room for: contiguous (reversed arrival), complete, and nothing stored
+        dict(writers=[[(1, 1), (0, 2)], [(2, 3)]], readers=[[2, 5]], presize=8),
+        dict(writers=[[(2, 1)], [(1, 2), (0, 3)]], readers=[[0]], presize=3),
+        dict(writers=[[]], readers=[[0]], presize=4),
         dict(writers=[[(1, 1), (1, 2)], [(0, 3)]], readers=[[1]]),                           # the same writer stores twice
         dict(writers=[[(0, 1), (-1, 0), (2, 2), (-1, 0), (1, 3)], [(3, 4)]], readers=[[0, 2, 1]]),   # close / re-open between stores
         # flush and refill: the same ids again with new texts, read by an object that already read the first generation
